@@ -10,6 +10,7 @@ from dataclasses import dataclass, field, replace
 from datetime import datetime
 from functools import wraps
 from getpass import getpass
+from html import escape as html_escape
 from time import monotonic
 from typing import (
     IO,
@@ -1539,7 +1540,7 @@ class Console:
                         rule = style.get_html_style(_theme)
                         text = f'<span style="{rule}">{text}</span>' if rule else text
                         if style.link:
-                            text = f'<a href="{style.link}">{text}</a>'
+                            text = f'<a href="{html_escape(style.link)}">{text}</a>'
                     append(text)
             else:
                 styles: Dict[str, int] = {}
@@ -1553,7 +1554,7 @@ class Console:
                             style_number = styles.setdefault(rule, len(styles) + 1)
                             text = f'<span class="r{style_number}">{text}</span>'
                         if style.link:
-                            text = f'<a href="{style.link}">{text}</a>'
+                            text = f'<a href="{html_escape(style.link)}">{text}</a>'
                     append(text)
                 stylesheet_rules: List[str] = []
                 stylesheet_append = stylesheet_rules.append
